@@ -74,6 +74,8 @@ fn work_dir() -> PathBuf {
 pub fn e2_lock() -> std::fs::File {
     let dir = work_dir();
     let _ = std::fs::create_dir_all(&dir);
+    // which repository copy this directory belongs to (tools/mutant.sh removes the directories of its own scratch copy only)
+    let _ = std::fs::write(dir.join(".owner"), repo_root().display().to_string());
     let f = std::fs::OpenOptions::new().create(true).write(true).truncate(false).open(dir.join(".lock")).unwrap_or_else(|e| inconclusive(&format!("E2 lock file: {e}")));
     f.lock().unwrap_or_else(|e| inconclusive(&format!("E2 lock: {e}")));
     f
